@@ -10,7 +10,7 @@ ASSUMPTIONS = [
     "cells are generated from guillotine partitions with dyadic coordinates and ratios, so binary64 arithmetic is exact; centres (one division) are compared within 8 roundings",
     "refine(levels=0) raises by design (assert levels > 0) and is outside 'all level counts'",
     "decimal coordinates (cell sides 0.1, 0.3, 0.7, 1.1 ..., not representable in binary64) go to the direct oracle only, with a tolerance of "
-    "1e-9 of the layout size; this includes the LARGE results (1000-1100, 2048/2049, 4100 cells from refine / uniform / griddify of a "
+    "1e-9 of the layout size; this includes the LARGE results (1000-1100, 2048, 4100 cells from refine / uniform / griddify of a "
     "decimal layout; quick tier: two of about 1025 cells, one of them by refine), where the constructor's all-pairs overlap check costs "
     "3 s (1026 cells) to 60 s (4100 cells) per call",
 ]
@@ -185,7 +185,7 @@ def gen_cases(rng, n, quick, extreme=False):
         tg = [1001, 1026, 1100, 2048] if extreme else av.BIGDEC_TARGETS      # C12 shares the stream, C02 carries the class
         bigdec = [av.gen_big_decimal(rng, t, opsq[(i + rng.randrange(3)) % 3] if t < 4000 else "refine",
                                      exact=t < 2000 and i % 5 == 4) for i, t in enumerate(tg)]
-    n = max(n - len(bigdec), 0)
+    n = max(n - len(bigdec) * (1 if quick else 40), 0)      # thorough: a large case costs about as much as 40 ordinary ones
     n_hist = (n * 9) // 20
     n_tmpl = min(n_hist // 3, 3 * len(ac.QKINDS) * len(ac.TKINDS))
     n_big = 8 if quick else 60
@@ -225,7 +225,7 @@ def run(ctx, out, replay=None):
                 "same object called again with other arguments; a systematic block enumerates first-call x later-call "
                 "kinds with the flag set in between on a cell the later call would cut; (c) size x decimal coordinates (oracle "
                 "only): grids of cells of side 0.1 / 0.3 / 0.7 / 1.1 / 0.07 ... on which ONE refine(t, 1..10 levels) / "
-                "uniform_refinement_depth / griddify returns 1000, 1001, 1002 ... 1100, 2048, 2049, 4100 cells (thorough; some "
+                "uniform_refinement_depth / griddify returns 1000, 1001, 1002 ... 1100, 2048, 4100 cells (thorough; some "
                 "followed by a second operation on the large result, some from exactly representable sides; quick: two results "
                 "of 1024-1026 cells); (d) layouts where the 1% rule of griddify answers differently for a cell and for the pieces "
                 "the perpendicular cuts leave (see C12); non-trivial = at least two cells; distinct by hash")
